@@ -617,10 +617,11 @@ impl MetaData<'_> {
     /// Check for alignment and overlap
     fn valid(&self, m: &MetaSize) -> bool {
         fn overlap(a: Range<*const u8>, b: Range<*const u8>) -> bool {
+            // wrapping: the ranges might be empty (e.g. no local slots)
             a.contains(&b.start)
-                || a.contains(&unsafe { b.end.sub(1) })
+                || a.contains(&b.end.wrapping_sub(1))
                 || b.contains(&a.start)
-                || b.contains(&unsafe { a.end.sub(1) })
+                || b.contains(&a.end.wrapping_sub(1))
         }
         self.local.len() >= m.local
             && self.trees.len() >= m.trees
